@@ -176,6 +176,33 @@ def run(label, spec, H0f, Vf, maxn, cut, patterns=None, hermitian=True):
         res.append((n, float(np.abs(hm - rHt[(n,)])[np.ix_(low, low)].max()), eu, len(low)))
     return res
 
+def run_solver(label, spec, H0f, Vf, hermitian_Y, flag, cut):
+    """C16: the second-quantised Sylvester solver called directly on a diagonal entry: H_ii X - X H_ii = Y as an operator identity (Fock matrices, low states)"""
+    from pymablock.second_quantization import solve_sylvester_2nd_quant
+    spec = sorted(spec, key=lambda m: (ORDER[m[0]], m[1])); ops = [KIND[k](n) for k, n in spec]
+    d = {n: o for (k, n), o in zip(spec, ops)}
+    H0 = H0f(d); V = Vf(d) if hermitian_Y else Vf(d, False); ph = [_number_operator_to_placeholder(NumberOperator(o)) for o in ops]
+    Yn = NOF.from_expr(sympy.sympify(V), ops)
+    Yn = NOF(Yn.args[0], {k: v for k, v in Yn.terms.items() if any(k)})          # the part that changes occupations (what the algorithm hands to the solver)
+    if not Yn.terms: return None
+    ranges = [range(0, cut) if m[0] == 'b' else (range(-6, 7) if m[0] == 'l' else range(0, 2)) for m in spec]
+    states = list(itertools.product(*ranges)); idx = {s_: i for i, s_ in enumerate(states)}; ns = len(states)
+    def mat1(x):
+        M = np.zeros((ns, ns), dtype=complex)
+        x = x if isinstance(x, NOF) and list(x.operators) == list(ops) else NOF.from_expr(sympy.sympify(x.as_expr() if isinstance(x, NOF) else x), ops)
+        for s_ in states:
+            for t, a in nof_apply(spec, x, ops, ph, s_).items():
+                if t in idx: M[idx[t], idx[s_]] += complex(a)
+        return M
+    H0m = mat1(H0); E = np.diag(H0m).real
+    if (np.abs(E.reshape(-1, 1) - E) < 1e-9).sum() > len(E): return None
+    solve = solve_sylvester_2nd_quant([[H0]], hermitian=flag)
+    X = solve(sympy.Matrix([[Yn.as_expr()]]), (0, 0, 1))[0, 0]
+    Xm = mat1(X); Ym = mat1(Yn)
+    low = [i for i, s_ in enumerate(states) if all(abs(x) <= 2 for x in s_)]
+    res = (H0m @ Xm - Xm @ H0m - Ym)[np.ix_(low, low)]
+    return float(np.abs(res).max()), len(low)
+
 def main(seed, ncases, driver, out, mode="all"):
     failures = []; dist = {}; samples = []; evals = 0; distinct = 0; worst = 0.0
     for c in (range(ncases) if mode == "all" else range(len(SYSTEMS), len(SYSTEMS) + ncases)):
@@ -197,6 +224,17 @@ def main(seed, ncases, driver, out, mode="all"):
                 dist["with a symbolic-power mask"] = dist.get("with a symbolic-power mask", 0) + 1
             elif not patterns: patterns = None
             else: label += " | mask " + str(sorted(patterns)); dist["with an operator-valued mask"] = dist.get("with an operator-valued mask", 0) + 1
+        if mode == "solver":
+            hermY = c % 2 == 0; flag = hermY and c % 4 == 0        # Hermitian right-hand sides with the shortcut on and off, non-Hermitian ones with it off
+            dist[f"solver: hermitian_Y={hermY} hermitian_flag={flag}"] = dist.get(f"solver: hermitian_Y={hermY} hermitian_flag={flag}", 0) + 1
+            try:
+                r = run_solver(label, spec, H0f, Vf, hermY, flag, cut)
+                if r is None: continue
+                evals += r[1] ** 2; worst = max(worst, r[0]); distinct += 1
+                if r[0] > 1e-8: failures.append({"system": label, "kind": "solver-residual", "hermitian_Y": hermY, "hermitian_flag": flag, "residual": r[0]})
+            except Exception as e:
+                failures.append({"system": label, "kind": "implementation-raises", "error": type(e).__name__ + ": " + str(e)[:150]})
+            continue
         herm = True
         if c >= len(SYSTEMS) and (c % 3 == 1 or mode == "nh"):
             # the non-Hermitian algorithm on second-quantised input: a non-Hermitian perturbation, or a Hermitian one (same answer as the Hermitian mode)
